@@ -180,9 +180,6 @@ SEEDED_LIMITS = {
     'C16-m8': ('C11', 1, 'a defect of the n-D distance kernel: reported by C02 / C10 / C11; the k-means check has no kernel rules'),
     'C07-m8': ('C07', 0, 'LIMIT: the work list is built by a helper with a cached row series; the obligation is undecided, nothing is reported'),
     # round 5 (second-tier places)
-    'C03-m10': ('C03', 0, 'LIMIT: the n-D Euclidean bound restructured around an extracted accumulator; the loop summary gives no verdict (undecided)'),
-    'C11-m10': ('C11', 0, 'LIMIT: the n-D Euclidean bound reads the series through conditional `shorter` / `longer` selections; undecided'),
-    'C15-m10': ('C15', 0, 'LIMIT: the Euclidean bound restructured around `shorter` / `longer` pointers; undecided'),
     'C08-m10': ('C08', 0, 'LIMIT: no rule bounds the positions dtw_wps_negativize touches (the dual comparison has no verdict once one copy is restructured)'),
     'C18-m10': ('C18', 0, 'LIMIT: dtw_wps_loc with region D as a closed form is not comparable region by region; undecided'),
     'C07-m9': ('C07', 2, 'LIMIT: the pair plan written as comprehensions is not recognised; the check stops with an ANALYSIS-ERROR (no verdict)'),
